@@ -17,7 +17,10 @@ GENERIC = (" Generic obligations of every check: (RANGE-0): no loop or comprehen
            "parameter its callee also takes; (REARM-0) a callback that renews its own one-shot subscription renews it on every returning path after evaluating; "
            "(MEMO-0) a function memoised by argument value neither answers from changeable state nor hands out a mutable object it built; (CONFIG-0) no validated configuration entry is edited in place, "
            "directly or through an alias; (ITERMUT-0) no for loop changes the container it walks; (SHARED-0) no method fills a class-level container; "
-           "(LASTONLY-0) a per-trip object is registered on every trip; (BRACKET-0) a phase flag set and cleared by one function is cleared on every returning path.")
+           "(LASTONLY-0) a per-trip object is registered on every trip; (BRACKET-0) a phase flag set and cleared by one function is cleared on every returning path; "
+           "(EVPRIO-0) an override of a control-event handler whose base declares @event_handler(n) declares a priority too; (STALE-0) a local tested inside a waiting loop "
+           "is sampled from live state inside the loop, not once before it; (TRIP-0) a value a loop body computes from its item and hands to a call is computed on "
+           "every path of the trip.")
 checks = []
 for p in ALL:
     if p not in CLAIMS:
